@@ -301,6 +301,8 @@ def w_crash(case: dict) -> dict:
                 open(p, "wb").write(gens[name][spec[1]][: spec[2]])
             elif spec[0] == "stale":
                 open(p, "wb").write(_Z["stale"][name])
+            elif spec[0] == "outdated":
+                open(p, "wb").write(_Z["stale"][name + "#outdated"])
             elif spec[0] == "wrongtype":
                 open(p, "wb").write(pickle.dumps({"not": "a database"}))
             elif spec[0] == "garbage":
@@ -389,6 +391,8 @@ def _init_cache(cdir: str, init: str) -> None:
             open(p, "wb").write(g[-1][: len(g[-1]) // 2])
         elif init == "stale":
             open(p, "wb").write(_Z["stale"][name])
+        elif init == "outdated":
+            open(p, "wb").write(_Z["stale"].get(name + "#outdated", g[-1]))
         elif init == "valid-quick-only":
             if name.startswith("db_quick_info"):
                 open(p, "wb").write(g[-1])
@@ -397,9 +401,13 @@ def _init_cache(cdir: str, init: str) -> None:
 
 def w_sched(case: dict) -> dict:
     work = _Z["work"]
-    cdir = tempfile.mkdtemp(prefix="sc", dir=work)
+    top = tempfile.mkdtemp(prefix="sc", dir=work)
+    cdir = top
     try:
-        _init_cache(cdir, case["init"])
+        if case["init"] == "nofolder":
+            cdir = os.path.join(top, "cache")  # SPSDK_CACHE_FOLDER names a folder that does not exist yet
+        else:
+            _init_cache(cdir, case["init"])
 
         def body(i: int, seam) -> Any:
             _child_env(cdir)
@@ -429,7 +437,7 @@ def w_sched(case: dict) -> dict:
             else:
                 outs.append("ok")
         after = {}
-        for f in sorted(os.listdir(cdir)):
+        for f in (sorted(os.listdir(cdir)) if os.path.isdir(cdir) else []):
             if f.endswith(".cache"):
                 v = file_valid(os.path.join(cdir, f))
                 after[_short(f)] = v
@@ -439,7 +447,7 @@ def w_sched(case: dict) -> dict:
         return {"viol": core.dedupe(viol), "succ": succ, "points": len(tr.points), "distinct": [tag + "|" + ",".join(outs) + "|" + core.jdump(after)],
                 "ops": [p["op"][:3] for p in tr.points] if not case["prefix"] else None}
     finally:
-        shutil.rmtree(cdir, ignore_errors=True)
+        shutil.rmtree(top, ignore_errors=True)
 
 
 # ---------------------------------------------------------------------------------------------
@@ -455,6 +463,15 @@ def make_stale() -> dict:
         obj = pickle.loads(g[-1])
         obj.db_hash = b"\x00" * 20
         out[name] = pickle.dumps(obj, pickle.DEFAULT_PROTOCOL)
+        # "outdated": what an older version of the data folder leaves behind - fingerprint does not match AND the cached
+        # content of the file the battery loads LAST differs from the current source (a loader that adopts records of a
+        # mismatching cache answers differently for that file)
+        if hasattr(obj, "cfg_cache") and obj.cfg_cache:
+            keys = list(obj.cfg_cache.keys())
+            last = [k for k in keys if k.endswith("sch_cert_block.yaml")] or keys[-1:]
+            for k in last:
+                obj.cfg_cache[k] = {"outdated_content_of": os.path.basename(k)}
+            out[name + "#outdated"] = pickle.dumps(obj, pickle.DEFAULT_PROTOCOL)
     return out
 
 
@@ -468,6 +485,8 @@ def e2e(case: dict) -> dict:
                 open(p, "wb").write(_Z["gens"][name][spec[1]][: spec[2]])
             elif spec[0] == "stale":
                 open(p, "wb").write(_Z["stale"][name])
+            elif spec[0] == "outdated":
+                open(p, "wb").write(_Z["stale"][name + "#outdated"])
             elif spec[0] == "wrongtype":
                 open(p, "wb").write(pickle.dumps({"not": "a database"}))
             elif spec[0] == "garbage":
@@ -519,7 +538,7 @@ def run(ctx: core.Ctx) -> None:
         for gi in gsel:
             for ln in lengths_for(gl[gi], ctx.tier, cuts[name][gi] if gi < len(cuts[name]) else []):
                 cases.append({"files": {**other, name: ["prefix", gi, ln]}})
-        for spec in (["stale"], ["wrongtype"], ["garbage", 1], ["garbage", 100]):
+        for spec in (["stale"], ["wrongtype"], ["garbage", 1], ["garbage", 100]) + ((["outdated"],) if name != qn else ()):
             cases.append({"files": {**other, name: spec}})
             cases.append({"files": {**other, name: spec}, "lock": True})
     # class combinations of both files
@@ -527,7 +546,7 @@ def run(ctx: core.Ctx) -> None:
     qfb = sorted(_Z["fb"][qn][-1] - {0, len(qg[-1])})
     dfb = sorted(_Z["fb"][dn][-1] - {0, len(dg[-1])})
     qcls = [["absent"], ["prefix", len(qg) - 1, 0], ["prefix", len(qg) - 1, len(qg[-1]) // 2], ["prefix", len(qg) - 1, len(qg[-1])], ["stale"], ["wrongtype"]]
-    dcls = [["absent"], ["prefix", len(dg) - 1, 0], ["prefix", len(dg) - 1, len(dg[-1]) // 2], ["prefix", len(dg) - 1, len(dg[-1])], ["stale"], ["wrongtype"],
+    dcls = [["absent"], ["prefix", len(dg) - 1, 0], ["prefix", len(dg) - 1, len(dg[-1]) // 2], ["prefix", len(dg) - 1, len(dg[-1])], ["stale"], ["wrongtype"], ["outdated"],
             ["prefix", 0, len(dg[0])]]
     if qfb:
         qcls.append(["prefix", len(qg) - 1, qfb[len(qfb) // 2]])
@@ -565,9 +584,9 @@ def run(ctx: core.Ctx) -> None:
             raise core.HarnessError(f"seam validation failed: class {k} gives {r['outcome']} end-to-end for {case}")
     ctx.cov["end_to_end_validated_representatives"] = len(reps)
     # ---- Part B: schedules ------------------------------------------------------------------
-    plans = [(2, "cold", 1), (2, "valid-quick-only", 2), (2, "empty", 2), (2, "truncated", 2), (2, "stale", 1), (2, "valid", 1)]
+    plans = [(2, "cold", 1), (2, "nofolder", 2), (2, "valid-quick-only", 2), (2, "empty", 2), (2, "truncated", 2), (2, "stale", 1), (2, "outdated", 1), (2, "valid", 1)]
     if ctx.tier == "thorough":
-        plans = [(2, "cold", 2), (2, "valid-quick-only", 3), (2, "empty", 3), (2, "truncated", 3), (2, "stale", 2), (2, "valid", 2),
+        plans = [(2, "cold", 2), (2, "nofolder", 3), (3, "nofolder", 2), (2, "valid-quick-only", 3), (2, "empty", 3), (2, "truncated", 3), (2, "stale", 2), (2, "outdated", 2), (2, "valid", 2),
                  (3, "valid-quick-only", 2), (3, "truncated", 2), (3, "empty", 1)]
     else:
         plans += [(3, "truncated", 1), (3, "valid-quick-only", 1)]
